@@ -496,6 +496,8 @@ def _export(obj, fp, extensions_map, extension, overwrite, exporter_kwargs=None)
     if isinstance(fp, str):
         fp = Path(fp)  # cheeky conversion to Path to reuse existing code
     if isinstance(fp, Path):
+        # write to the very path that is validated (user and variables expanded)
+        fp = _norm_path(fp)
         export_function, extension = _validate_and_get_export_func(
             fp, extensions_map, extension, overwrite, return_extension=True
         )
